@@ -81,7 +81,7 @@ class SunProducer(DateTimeProducerBase):
         sun_cache = SUN_CACHE
 
         # we cache the SUN calculations because they are somewhat expensive
-        key = (dt.to_tz('UTC').date(), id(observer)) + self._cache_key()
+        key = (dt.to_tz('UTC').date(), observer.latitude, observer.longitude, observer.elevation) + self._cache_key()
         if (obj := sun_cache.get(key)) is not None:
             sun_cache.move_to_end(key)
             return obj
